@@ -5,6 +5,7 @@ import (
 	"flag"
 	"fmt"
 	"os"
+	"os/exec"
 	"runtime"
 	"sync"
 	"time"
@@ -24,7 +25,13 @@ func cmdRace(args []string) {
 	fs.Duration("deadline", 0, "")
 	fs.String("prop", "C16", "")
 	fs.String("universe", "", "")
+	first := fs.String("first", "", "run this scenario once, concurrently, as the very first use of the library in this process")
+	procsFlag := fs.Int("procs", 4, "")
 	fs.Parse(args)
+	if *first != "" {
+		raceFirstUse(*tier, *first, *procsFlag)
+		return
+	}
 	start := time.Now()
 	execs := 0
 	res := &hist.Result{Universe: "race-pass", Property: "C16"}
@@ -38,6 +45,25 @@ func cmdRace(args []string) {
 			os.WriteFile(*out, b, 0o644)
 		}
 		os.Exit(1)
+	}
+	// first-use executions: one fresh process per (scenario, GOMAXPROCS) in which the concurrent bodies are the first
+	// calls into the library (tables built lazily, high-water marks and one-time initialisation are written then and
+	// never again; the in-process rounds below only see them warmed up)
+	firstUse := 0
+	for _, sc := range scen.Scenarios(*tier) {
+		for _, procs := range []int{2, 4, 16} {
+			cmd := exec.Command(os.Args[0], "race", "-tier", *tier, "-first", sc.Name, "-procs", fmt.Sprint(procs))
+			cmd.Env = os.Environ()
+			outb, err := cmd.CombinedOutput()
+			firstUse++
+			if err != nil {
+				txt := string(outb)
+				if len(txt) > 3000 {
+					txt = txt[:3000]
+				}
+				fail(fmt.Sprintf("RACE-PASS-FAIL scenario=%s procs=%d first use in a fresh process: %v\n%s", sc.Name, procs, err, txt))
+			}
+		}
 	}
 	for _, sc := range scen.Scenarios(*tier) {
 		// sequential reference
@@ -90,11 +116,66 @@ func cmdRace(args []string) {
 		}
 	}
 	fmt.Printf("RACE-PASS-OK executions=%d wall=%.1fs\n", execs, time.Since(start).Seconds())
-	res.Stats.Extra = map[string]float64{"race_pass_free_running_executions": float64(execs)}
+	res.Stats.Extra = map[string]float64{"race_pass_free_running_executions": float64(execs), "race_pass_first_use_processes": float64(firstUse)}
 	res.Stats.WallS = time.Since(start).Seconds()
-	res.Stats.Samples = []string{fmt.Sprintf("free-running -race pass (sampling, reported separately): %d executions of the scenario bodies on real goroutines, GOMAXPROCS 2/4/16", execs)}
+	res.Stats.Samples = []string{fmt.Sprintf("free-running -race pass (sampling, reported separately): %d executions of the scenario bodies on real goroutines, GOMAXPROCS 2/4/16, after %d first-use executions in fresh processes", execs, firstUse)}
 	b, _ := json.MarshalIndent(res, "", " ")
 	if *out != "" {
 		os.WriteFile(*out, b, 0o644)
 	}
+}
+
+// raceFirstUse runs one scenario concurrently as the first thing this process does with the library, then compares
+// with a sequential execution made afterwards. Exit status 1 on a wrong observation; a detector report ends the process.
+func raceFirstUse(tier, name string, procs int) {
+	for _, sc := range scen.Scenarios(tier) {
+		if sc.Name != name {
+			continue
+		}
+		runtime.GOMAXPROCS(procs)
+		inst := sc.New()
+		var wg sync.WaitGroup
+		gate := make(chan struct{})
+		panics := make([]string, len(inst.Bodies))
+		for i, b := range inst.Bodies {
+			wg.Add(1)
+			go func(i int, b func()) {
+				defer wg.Done()
+				defer func() {
+					if x := recover(); x != nil {
+						panics[i] = fmt.Sprint(x)
+					}
+				}()
+				<-gate
+				b()
+			}(i, b)
+		}
+		close(gate)
+		wg.Wait()
+		for i, p := range panics {
+			if p != "" {
+				fmt.Printf("goroutine %d panicked: %s\n", i+1, p)
+				os.Exit(1)
+			}
+		}
+		obs := inst.Obs()
+		if msg := inst.Post(); msg != "" {
+			fmt.Println("final state:", msg)
+			os.Exit(1)
+		}
+		refInst := sc.New()
+		for _, b := range refInst.Bodies {
+			b()
+		}
+		ref := refInst.Obs()
+		for t := range ref {
+			if fmt.Sprint(ref[t]) != fmt.Sprint(obs[t]) {
+				fmt.Printf("goroutine %d observed %v, sequential %v\n", t+1, obs[t], ref[t])
+				os.Exit(1)
+			}
+		}
+		return
+	}
+	fmt.Println("no scenario", name)
+	os.Exit(2)
 }
